@@ -341,6 +341,70 @@ def run(tier, seed, replay):
                     rep.violation("%s:%s:%s" % (kind, kindname.split("_")[0] + ("/" + kindname.split("_")[1] if kindname.startswith("ec_") else ""),
                                                 "private" if r["priv"] else "public" if r["priv"] is False else "bin"),
                                   "key conversion problem: %s %s" % (kind, detail), dict(file=r["file"], detail=detail, jwk=r.get("jwk_public_view")))
+    # several keys in one key2jwk call -> one JWKS -> jwk2key: as many files as keys, each the identical key of exactly one source
+    def multi(round_):
+        r = random.Random(seed * 7919 + round_)
+        srcs = []
+        for k in r.sample(keys, min(len(keys), r.choice([2, 3, 5, 9]))):
+            name = k[1]
+            srcs.append(os.path.join(kd, name + ".bin") if name.startswith("oct") else os.path.join(kd, name + (".pem" if r.random() < 0.7 else "_pub.pem")))
+        if round_ % 3 == 0 and srcs:
+            srcs.append(srcs[0])           # the same key twice: two entries, two files
+        wd = os.path.join(rd, "multi-%d" % round_); od = os.path.join(wd, "out")
+        shutil.rmtree(wd, ignore_errors=True); os.makedirs(od)
+        probs = []
+        jpath = os.path.join(wd, "set.json")
+        p = subprocess.run([T["key2jwk"], "-q", "-o", jpath] + srcs, capture_output=True, env=env, cwd=wd)
+        if p.returncode != 0:
+            return [("multi:key2jwk-exit", "rc %d %s" % (p.returncode, p.stderr.decode("latin-1")[-200:]))], len(srcs)
+        try:
+            d = json.load(open(jpath))
+            n = len(d["keys"])
+        except Exception as e:
+            return [("multi:key2jwk-output-not-a-jwks", str(e)[:100])], len(srcs)
+        if n != len(srcs):
+            probs.append(("multi:jwks-entry-count", "%d keys given, %d entries" % (len(srcs), n)))
+        kids = [k_.get("kid") for k_ in d["keys"]]
+        if len(set(kids)) != len(kids):
+            probs.append(("multi:duplicate-kid", str(kids)[:200]))
+        p = subprocess.run([T["jwk2key"], "-d", od, jpath], capture_output=True, env=env, cwd=wd)
+        if p.returncode != 0:
+            probs.append(("multi:jwk2key-exit", "rc %d %s" % (p.returncode, p.stderr.decode("latin-1")[-200:])))
+        outs = sorted(os.listdir(od))
+        if len(outs) != len(srcs):
+            probs.append(("multi:file-count", "%d keys, %d files written: %s" % (len(srcs), len(outs), p.stderr.decode("latin-1")[-200:])))
+        unmatched = list(srcs)
+        for of in outs:
+            op = os.path.join(od, of)
+            hit = None
+            for sfile in unmatched:
+                if sfile.endswith(".bin") != of.endswith(".bin"):
+                    continue
+                if sfile.endswith(".bin"):
+                    same = open(sfile, "rb").read() == open(op, "rb").read()
+                else:
+                    q = subprocess.run([helper, "--mode", "cmp", "--arg1", sfile, "--arg2", op], capture_output=True, env=env)
+                    c_ = [json.loads(l) for l in q.stdout.decode().splitlines() if l.startswith('["CMP"')]
+                    spriv = not sfile.endswith("_pub.pem")
+                    same = bool(c_) and bool(c_[0][1]) and (c_[0][2] == 1 if spriv else ("_pub" in of))
+                if same:
+                    hit = sfile
+                    break
+            if hit:
+                unmatched.remove(hit)
+            else:
+                probs.append(("multi:written-file-matches-no-source", of))
+        if unmatched and len(outs) == len(srcs):
+            probs.append(("multi:source-key-not-written-back", ",".join(os.path.basename(u) for u in unmatched)[:200]))
+        return probs, len(srcs)
+
+    with ThreadPoolExecutor(vf.NCPU) as ex:
+        for probs, nk in ex.map(multi, range(40 if thorough else 12)):
+            rep.evaluations += nk
+            rep.count("multi_key_conversions")
+            rep.distinct.add(("multi", nk))
+            for kind, detail in probs:
+                rep.violation(kind, "multi-key conversion problem: %s %s" % (kind, detail), dict(detail=detail))
     rep.sample(dict(keys=[k[1] for k in keys][:12]))
     rep.sample(dict(generate_verify_example=jobs[0]["desc"] if jobs else None))
     c = rep.counters
